@@ -188,6 +188,13 @@ class qutipEngine(quantumEngine):
         Y = qp.Qobj([[0, -i], [i, 0]], dims=[[2], [2]])
         self.apply_onequbit_gate(Y, qubitNum)
 
+    def apply_S(self, qubitNum):
+        """
+        Applies a S gate to the qubits with number qubitNum.
+        """
+        S = qp.Qobj([[1, 0], [0, complex(0, 1)]], dims=[[2], [2]])
+        self.apply_onequbit_gate(S, qubitNum)
+
     def apply_T(self, qubitNum):
         """
         Applies a T gate to the qubits with number qubitNum.
